@@ -156,6 +156,7 @@ func runCell(c *run.Ctx, cell c14Cell) {
 		}
 		return d
 	}
+	reqMade := false
 	isReq := func(p []byte) bool {
 		if len(p) == 0 || p[0]>>4 != reqType {
 			return false
@@ -168,8 +169,9 @@ func runCell(c *run.Ctx, cell c14Cell) {
 		}
 		// the client may hand a packet over in parts: in a first part the
 		// marker may lie beyond
+		// (other packets of the type went out before the request was made)
 		hl, rem, err := wire.Header(p)
-		return err != nil || hl+rem > len(p)
+		return reqMade && (err != nil || hl+rem > len(p))
 	}
 	reqWrites := 0
 	faultInjected := false
@@ -307,6 +309,7 @@ func runCell(c *run.Ctx, cell c14Cell) {
 	}
 	w.Mu.Lock()
 	storeFail = cell.Store
+	reqMade = true
 	w.Mu.Unlock()
 
 	topic := marker
